@@ -7,6 +7,7 @@ package db
 // before and after every statement. The row changes a statement made are the difference.
 
 import (
+	"expvar"
 	"fmt"
 	"math"
 	"os"
@@ -316,7 +317,13 @@ func TestVerifC27(t *testing.T) {
 			re = regexp.MustCompile("^nosuchtable$")
 		}
 		matches := func(tbl string) bool { return re == nil || re.MatchString(tbl) }
-		ch := make(chan *command.CDCIndexedEventGroup, 64)
+		// the output channel: usually roomy; sometimes with room for 0-2 groups only (nobody reads while a
+		// request runs): CommitHook then DROPS groups - and must still let the commit through
+		room := 64
+		if r.Chance(25) {
+			room = r.Intn(3)
+		}
+		ch := make(chan *command.CDCIndexedEventGroup, room)
 		streamer, err := NewCDCStreamer(ch, real)
 		if err != nil {
 			t.Fatal(err)
@@ -327,7 +334,8 @@ func TestVerifC27(t *testing.T) {
 		if err := real.RegisterCommitHook(streamer.CommitHook); err != nil {
 			t.Fatal(err)
 		}
-		ops := []string{fmt.Sprintf("cfg %s %s", map[bool]string{true: "1", false: "0"}[idsOnly], filter)}
+		ops := []string{fmt.Sprintf("cfg %s %s %d", map[bool]string{true: "1", false: "0"}[idsOnly], filter, room)}
+		rep.Count(fmt.Sprintf("channel-room=%d", room))
 		impl := []string{"ok"}
 		rep.Count("filter=" + filter)
 		rep.Count(fmt.Sprintf("row-ids-only=%v", idsOnly))
@@ -413,6 +421,7 @@ func TestVerifC27(t *testing.T) {
 
 			// ---- the real thing ----
 			streamer.Reset(uint64(100 + c))
+			droppedBefore := stats.Get(cdcDroppedEvents).(*expvar.Int).Value()
 			if _, err := real.Execute(req, false); err != nil {
 				t.Fatalf("Execute: %v", err)
 			}
@@ -430,7 +439,10 @@ func TestVerifC27(t *testing.T) {
 			for tbl := range c27Tables {
 				a, b := c27Snapshot(real, tbl), c27Snapshot(shadow, tbl)
 				if fmt.Sprint(a) != fmt.Sprint(b) {
-					t.Fatalf("shadow diverged on %s after %q", tbl, sqls)
+					// the only thing between the two databases is the CDC hooks: a commit was vetoed or altered
+					rep.Fail("database-differs-from-hookless-shadow", fmt.Sprintf("after %q (transaction=%v, channel room %d) table %s differs from the shadow database without CDC hooks: %d rows vs %d", sqls, tx, room, tbl, len(a), len(b)),
+						map[string]interface{}{"sql": sqls, "transaction": tx, "channel_room": room})
+					return
 				}
 			}
 
@@ -499,7 +511,11 @@ func TestVerifC27(t *testing.T) {
 			for _, chg := range delivered {
 				got = append(got, fmt.Sprintf("%s#%d#%s", chg.table, chg.id, chg.op[:1]))
 			}
-			if strings.Join(got, ",") != strings.Join(want, ",") {
+			dropped := stats.Get(cdcDroppedEvents).(*expvar.Int).Value() - droppedBefore
+			if dropped > 0 {
+				rep.Count("request-with-dropped-groups")
+			}
+			if strings.Join(got, ",") != strings.Join(want, ",") && dropped == 0 {
 				sig := "events-differ-from-committed-changes"
 				if commitAfterFailure {
 					sig = "phantom-events-of-failed-statement-delivered-with-next-commit"
@@ -523,7 +539,11 @@ func TestVerifC27(t *testing.T) {
 				st = strings.Join(stmtToks, ";")
 			}
 			ops = append(ops, fmt.Sprintf("req %s %s", map[bool]string{true: "1", false: "0"}[tx], st))
-			impl = append(impl, fmt.Sprintf("%s %d", out, streamer.Len()))
+			o := fmt.Sprintf("%s %d", out, streamer.Len())
+			if dropped > 0 {
+				o += fmt.Sprintf(" dropped:%d", dropped)
+			}
+			impl = append(impl, o)
 			rep.Case(strings.Join(sqls, "; ")+fmt.Sprint(tx, idsOnly, filter), len(committed) > 0)
 			if phantomPossible {
 				rep.Count("request-with-statement-failing-after-rows")
